@@ -27,6 +27,13 @@ Tie        : correspondence `gc_faults`: tables with 1-4 retained snapshots (sha
              (gcsim.minimal_backend: a StorageBackend subclass implementing only the abstract methods, every helper being
              the base class's default).  The same fault plan drives the model; compared: abort phase / completion, exact
              deleted set, keep sets, call trace.
+OS level   : BELOW the interface (OS_KINDS, gcsim.os_failing): while ONE operation of the collection runs, the operating system
+             refuses the object it is about -- os.stat / os.lstat, os.scandir / os.listdir or open failing with EACCES / ESTALE /
+             EIO for that path only (a directory that can be listed but not searched, a stale handle, a failing disk) -- at every
+             exists / stat / read / open / listing call.  Oracle only: the collection raises, or its keep sets hold every
+             reachable and live file and none of them is deleted.  (Finding on the unchanged library:
+             findings/C07-failed-listing-reads-empty-unchanged-tree.log -- LocalStorageBackend.list_files answered [] for a
+             marker directory it could not look at and the sweep removed the files of live transactions.)
              `gc_damage`: every damage class {missing, garbage, empty, cut inside the Avro block, cut in the header}
              on every reachable list / manifest, plus BYTE-LEVEL damage anywhere in the file -- single-byte flips and
              truncations over the header, the block framing, EVERY record and every sync marker (quick: spread + structural
@@ -156,15 +163,18 @@ MANIFEST_ENTRY = {
                   "is skipped by collect()): recorded, not judged -- unless the metadata document contradicts itself afterwards "
                   "(dangling current_snapshot_id: judged); byte damage that still "
                   "decodes to DIFFERENT records (e.g. a flipped path character) is undetectable without checksums: recorded, not judged, "
-                  "not compared; a short read ending exactly on an Avro block boundary likewise; failures BELOW the local backend's "
-                  "operations (os.stat / os.scandir failing inside LocalStorageBackend, which turns some of them into 'not a file' or "
-                  "an empty listing) are not injected: faults are injected at the operations of the backend interface; a stale hint naming an older "
+                  "not compared; a short read ending exactly on an Avro block boundary likewise; failures BELOW the backend "
+                  "interface (while one operation of the collection runs, os.stat / os.scandir / open fail for the object it is about with "
+                  "EACCES / ESTALE / EIO: what LocalStorageBackend makes of that -- an exception, 'not a file', an empty listing -- is the "
+                  "backend's own code) are injected at every call and judged by the oracle only (raise, or every reachable / live file in "
+                  "the keep sets), not modelled and not injected for delete_file; a stale hint naming an older "
                   "existing version is C10's finding and only recorded; an abort raised by a sweep's own listing may follow deletions of "
                   "true orphans (the property's second disjunct) -- stated and proved as such; local backend and a third-party backend "
                   "over the same directory (S3: C09's harness)",
-    "technique": "Coq proof for all fault oracles and all documents + reader shapes / collector checks regenerated by the translator + "
-                 "exhaustive single-fault injection at every storage call and structured damage at every key path of every "
-                 "metadata-plane document (differential)",
+    "technique": "Coq proof for all fault oracles and all documents + reader shapes / collector checks / marker decision kernel regenerated "
+                 "by the translator + exhaustive single-fault injection at every storage operation (every exception class; at the "
+                 "backend's own operations, on the local and a third-party backend; OS-level refusals below the interface) and structured "
+                 "damage at every key path of every metadata-plane document (differential)",
     "design_ref": "DESIGN.md section 5 C07",
 }
 
@@ -176,7 +186,18 @@ KINDS = {"E": ["raise", "raisex", "bad", "perm", "value"], "O": ["raise", "missi
          "L": ["raise", "raisex", "bad", "missing", "perm", "timeout", "value"], "S": ["raise", "missing", "raisex", "perm", "timeout", "value"],
          "D": ["raise", "raisex", "missing", "perm"],
          "J": ["raise", "missing", "raisex", "bad"]}       # J = read_json of a metadata file (pointer plane only)
+# BELOW the interface (local backend and backends delegating to it): while ONE operation of the collection runs, the
+# operating system refuses the object it is about (gcsim.os_failing).  What the backend makes of that -- an exception, "not a
+# file", an empty listing -- is the backend's own code, so these runs are judged by the oracle only (no model).  Not injected
+# for delete_file: "cannot be deleted" is not among the property's conditions.
+OS_KINDS = {"E": ["os:stat:EACCES", "os:stat:ESTALE"], "S": ["os:stat:EACCES", "os:stat:ESTALE"],
+            "R": ["os:stat:EACCES", "os:open:EIO"], "O": ["os:stat:EACCES", "os:open:EIO"],
+            "L": ["os:stat:EACCES", "os:scandir:EACCES", "os:scandir:EIO"]}
 DAMAGES = ["missing", "garbage", "empty", "cut-block", "cut-header", "json-empty"]
+
+
+def gcsim_op_name(code: str) -> str:
+    return {v: k for k, v in gcsim.OPS.items()}[code]
 
 
 def role_of(key: str, reach_lists: set, reach_mans: set) -> str:
@@ -502,6 +523,21 @@ def run_table(spec: Dict[str, Any]) -> Dict[str, Any]:
                 r = one([{"op": op, "key": key, "occ": o, "kind": kind}], None, pos, what, desc)
                 out["runs"].append(r)
                 out["stats"]["fault_runs"] += 1
+            for kind in OS_KINDS.get(op, []):
+                what = f"{kind}@{op}:{role_of(key, reach_lists, reach_mans)}"
+                desc = {"type": "fault", "what": what}
+                if not wanted(desc):
+                    continue
+                r = one([{"op": op, "key": key, "occ": o, "kind": kind}], None, pos, what, desc)
+                r["os_level"] = True
+                if not r["real"]["raised"] and not protection_kept(r["real"], reach, live):
+                    gone = sorted((set(r["before"]) - set(r["after"])) & (reach | live))
+                    r["violations"].append({"key": f"os-failure-ignored:{what}", "desc": desc,
+                                            "what": f"{what}: while {gcsim_op_name(op)}({key}) ran, the operating system refused the object "
+                                                    f"({kind.split(':')[2]} on {kind.split(':')[1]}); the collection completed with reachable / live "
+                                                    f"files missing from its keep sets, deleting {gone[:4]}"})
+                out["runs"].append(r)
+                out["stats"]["os_fault_runs"] = out["stats"].get("os_fault_runs", 0) + 1
         # ---- double faults (thorough)
         for _ in range(spec.get("pairs", 0) if only is None else 0):
             i, j = sorted(rng.sample(range(len(T)), 2))
@@ -1139,7 +1175,7 @@ def run_campaign(ctx) -> None:
         agg["fault_runs"] += res["stats"]["fault_runs"]
         agg["damage_runs"] += res["stats"]["damage_runs"]
         for k2 in ("byte_damage_runs", "stream_fault_runs", "still_parses_not_judged", "stream_faults_undetectable_short_read", "timeouts",
-                   "doc_damage_runs", "doc_emptied_in_place_not_judged", "doc_emptied_in_place_deleted_reachable",
+                   "os_fault_runs", "doc_damage_runs", "doc_emptied_in_place_not_judged", "doc_emptied_in_place_deleted_reachable",
                    "doc_dangling_current_judged"):
             agg[k2] = agg.get(k2, 0) + res["stats"].get(k2, 0)
         agg.setdefault("records_per_list", []).append(res.get("shape", {}).get("lists"))
@@ -1176,7 +1212,7 @@ def run_campaign(ctx) -> None:
     pending = []   # (rec index, run, mapped faults so far, remaining plan)
     for ri, (spec, res) in enumerate(recs):
         for run in res["runs"]:
-            if run["damage"] is not None:
+            if run["damage"] is not None or run.get("os_level"):
                 continue
             pending.append([ri, run, [], list(run["plan"]), clean_models[ri]])
     done: List[Tuple[int, Dict[str, Any], Dict[str, Any]]] = []
